@@ -3,7 +3,7 @@ use std::borrow::Cow;
 use std::sync::Arc;
 
 use crate::Value;
-use crate::errors::{Error, TeraResult};
+use crate::errors::{Error, ErrorKind, TeraResult};
 use crate::value::number::Number;
 use crate::value::{Key, Map, ValueInner};
 
@@ -315,7 +315,17 @@ impl Kwargs {
         T: ArgFromValue<'k, Output = T>,
     {
         match self.values.get(&Key::Str(key)) {
-            Some(v) => T::from_value(v).map(|v| Some(v)),
+            // A mismatch here is about this argument, not about the value the filter/test/function
+            // is applied to, which is what `InvalidArgument` designates
+            Some(v) => T::from_value(v).map(|v| Some(v)).map_err(|e| match e.kind {
+                ErrorKind::InvalidArgument {
+                    expected_type,
+                    actual_type,
+                } => Error::message(format!(
+                    "Invalid type for argument `{key}`, expected `{expected_type}` but got `{actual_type}`"
+                )),
+                _ => e,
+            }),
             None => Ok(None),
         }
     }
